@@ -52,6 +52,10 @@ class Solver:
           write: Indicates whether the model should be written to file.
         '''
 
+        # A repeated solve is timed from its own start.
+        if hasattr(self, 'solver'):
+            self.model.time_start = datetime.datetime.now()
+
         # Brute force method.
         if self.options_parser.solver_options[Solver_options.BRUTEFORCE]:
             self.solver = Brute_force_solver(
